@@ -215,32 +215,49 @@ impl<'a> Matcher<'a> {
             },
             Ir::LookBehind { neg, alts } => {
                 for &(alt, len) in alts {
-                    // step back `len` characters; fail rather than read before the start
-                    let mut j = i;
-                    let mut ok = true;
-                    for _ in 0..len {
-                        match self.char_before(j) {
-                            Some(c) => j -= c.len_utf8(),
-                            None => {
-                                ok = false;
-                                break;
+                    // candidate start positions: exactly `len` characters back (fail rather
+                    // than read before the start), or every position <= i for a variable
+                    // length alternative (nearest first)
+                    let mut starts = Vec::new();
+                    match len {
+                        Some(len) => {
+                            let mut j = i;
+                            let mut ok = true;
+                            for _ in 0..len {
+                                match self.char_before(j) {
+                                    Some(c) => j -= c.len_utf8(),
+                                    None => {
+                                        ok = false;
+                                        break;
+                                    }
+                                }
+                            }
+                            if ok {
+                                starts.push(j);
+                            }
+                        }
+                        None => {
+                            let mut j = i;
+                            starts.push(j);
+                            while let Some(c) = self.char_before(j) {
+                                j -= c.len_utf8();
+                                starts.push(j);
                             }
                         }
                     }
-                    if !ok {
-                        continue;
-                    }
-                    let mut res = None;
-                    self.m(alt, j, caps, &mut |e, c| {
-                        if e == i {
-                            res = Some(*c);
-                            true
-                        } else {
-                            false
+                    for j in starts {
+                        let mut res = None;
+                        self.m(alt, j, caps, &mut |e, c| {
+                            if e == i {
+                                res = Some(*c);
+                                true
+                            } else {
+                                false
+                            }
+                        });
+                        if let Some(c2) = res {
+                            return !*neg && k(i, &c2);
                         }
-                    });
-                    if let Some(c2) = res {
-                        return !*neg && k(i, &c2);
                     }
                 }
                 *neg && k(i, caps)
